@@ -5,6 +5,16 @@ ROOT = os.path.dirname(os.path.dirname(os.path.abspath(__file__)))
 
 # id -> (engine, category, technique, level text, level note, design_ref)
 CHECKS = {
+ "C04": ("servlab", "exploration",
+   "runtime monitor on regenerated packages: reflection-built validated values of every type with a generated JSON codec; strict RFC 8259 parser, two round-trip legs, Go-level and JSON-level comparison",
+   "For every named type with Encode/Decode in the regenerated corpus packages (incl. the type x format matrix format_gen.json) values are built by reflection (all Opt/Nil/OptNil states, every sum variant, enums, nil/empty/filled arrays and maps, extreme numbers, Unicode and escape-heavy strings, recursion) and kept if the generated Validate() accepts them. Oracle: Encode output is strict JSON without duplicate members; Decode accepts it; nothing written is lost or changed (members added by schema defaults allowed); the decoded value is a fixed point of a second round trip at JSON and Go level; optional/nullable state, empty-vs-absent array and length differences of the first leg are violations; the decoded value validates. Thorough runs the whole corpus.",
+   "Conformance of the encoding to the source schema is decided in C03's schema-known specs; for corpus types the schema is not consulted. Not judged: pattern-keyed maps (keys built empty after a probe), ipv4/ipv6 sharing netip.Addr, oneOf values whose distinguishing members are all unset, Go-representation differences that encode to the same JSON.",
+   "DESIGN.md §2 C04"),
+ "C11": ("genlab", "exploration",
+   "runtime monitor over child processes running the real parser+generator on single-fault structural mutants and byte-level mutants; rusage ceilings; position oracle over node spans recorded by the harness's emitter",
+   "19 mutation kinds (delete, null, retype, number<->string, duplicate key, rename-to-collide, broken escape in a path key, dangling and self $ref, huge/negative/big numbers, 1000-deep nesting, empty map/string, long string) at every node (quick: PRNG-chosen nodes) of corpus documents in JSON and YAML spelling, plus truncation / bit flip / token insertion / deletion of the raw bytes; each run through ogen.Parse + gen.NewGenerator (+ WriteSource) in worker processes that log the input id before the call. Violations: panic, process death (fatal error), failure without error, CPU or allocation above the ceiling, a reported line:col outside the document or not at a node start, or (documents that generate before mutation) a reported node unrelated to the faulty node.",
+   "Ceilings: max(30 s CPU, 100 x unmutated document), max(8 GiB allocated, 100 x). Relatedness is generous (ancestor, descendant, sibling for key faults, or a node mentioning the faulty node); JSON-vs-YAML disagreement on the reported node is reported as inconclusive. Quick runs the template stage for every 5th mutant.",
+   "DESIGN.md §2 C11"),
  "C10": ("genlab", "exploration",
    "Go race detector on race-instrumented generator worker processes + differential comparison of all bytes written across repetitions, GOMAXPROCS settings, process histories and injected delays",
    "Each document (corpus selection, feature variants including all-features, failing documents interleaved) is generated repeatedly inside worker processes built with -race from the current tree, with GOMAXPROCS in {1,2,16} (quick) / {1,2,3,5,16} (thorough), a different document order per process and PRNG-determined Gosched/sleep at the FileSystem callback between template execution and file write. All runs of a document must write identical bytes and never fail only sometimes; GORACE logs are split into report blocks, deduplicated by top-frame pair, and any block is a violation. Evidence lists the number of distinct file-completion orders observed.",
